@@ -17,7 +17,7 @@ HEAD=$(git -C /repo rev-parse HEAD)
 if [ ! -d $WT ]; then git -C /repo worktree add --detach $WT HEAD >/dev/null 2>&1; fi
 git -C $WT checkout -q --detach $HEAD && git -C $WT checkout -q -- . && git -C $WT clean -qfd
 R=$DST/confirm.txt; : > $R
-if ! git -C $WT apply $DST/patch.diff 2>>$R; then echo "APPLY_FAILED" | tee -a $R; exit 3; fi
+if ! git -C $WT apply $DST/patch.diff 2>>$R; then echo "APPLY_FAILED" | tee -a $R; printf "%s\t%s\t%s\t%s\t%s\t%s\t%s\t%s\n" "$CID" "$TIER" "apply-failed" "0" "suite=?" "demo_with=?" "demo_without=?" "" >> $DST/results.tsv; exit 3; fi
 ( cd $WT && go build ./... ) >>$R 2>&1 || { echo "BUILD_FAILED" | tee -a $R; git -C $WT checkout -q -- .; exit 3; }
 SUITE=pass
 for i in 1 2 3; do ( cd $WT && go test -vet=off -count=1 ./... ) >>$R 2>&1 || SUITE=fail; done
